@@ -20,8 +20,8 @@ CHECKS["C17"] = dict(
     level_text=("Generated-sequence search against an exact reference model; both directions are checked (every "
                 "model entry is found, nothing else is returned, order identical). Does not establish absence."),
     level_note="trusted: the sorted-slice model and vlib.LessV (independent of types.CompareKeys); tower heights seeded through the verif-only VerifSetRand hook",
-    quick=[dict(pkg="pure", test="TestC17", shards=16, checks=12000, timeout=300)],
-    thorough=[dict(pkg="pure", test="TestC17", shards=16, checks=60000, timeout=900),
+    quick=[dict(pkg="pure", test="TestC17", shards=16, checks=12000, timeout=1200)],
+    thorough=[dict(pkg="pure", test="TestC17", shards=16, checks=60000, timeout=1800),
               dict(kind="fuzz", pkg="pure", fuzz="FuzzC17", test="TestC17", fuzztime=90)],
 )
 
@@ -42,8 +42,8 @@ CHECKS["C16"] = dict(
     level_text=("Generated-input search with an exact one-directional oracle (no false negative); this is the whole "
                 "property, the false-positive rate is deliberately not judged."),
     level_note="trusted: the procedural key expansion (SHA-256 of seed and counter)",
-    quick=[dict(pkg="pure", test="TestC16", shards=12, checks=400, timeout=250),
-           dict(pkg="lvl", test="TestC16Levels", shards=4, checks=40, timeout=200)],
+    quick=[dict(pkg="pure", test="TestC16", shards=12, checks=400, timeout=1200),
+           dict(pkg="lvl", test="TestC16Levels", shards=4, checks=40, timeout=1200)],
     thorough=[dict(pkg="pure", test="TestC16", shards=16, checks=12000, timeout=1200),
               dict(kind="fuzz", pkg="pure", fuzz="FuzzC16", test="TestC16", fuzztime=60),
               dict(pkg="lvl", test="TestC16Levels", shards=16, checks=1500, timeout=1200)],
@@ -70,8 +70,8 @@ CHECKS["C13"] = dict(
     level_text=("Generated-history search against an interval-form reference model (leaves room for other correct "
                 "implementations); the concurrent leg samples real schedules and cannot enumerate them."),
     level_note="trusted: the counter model in watermark_test.go; VerifSync only pushes a waiter mark through the existing FIFO channel",
-    quick=[dict(pkg="pure", test="TestC13", shards=12, checks=6000, timeout=300),
-           dict(pkg="pure", test="TestC13Conc", race=True, shards=4, checks=500, timeout=300)],
+    quick=[dict(pkg="pure", test="TestC13", shards=12, checks=6000, timeout=1200),
+           dict(pkg="pure", test="TestC13Conc", race=True, shards=4, checks=500, timeout=1200)],
     thorough=[dict(pkg="pure", test="TestC13", shards=16, checks=40000, timeout=1200),
               dict(kind="fuzz", pkg="pure", fuzz="FuzzC13", test="TestC13", fuzztime=60),
               dict(pkg="pure", test="TestC13Conc", race=True, shards=16, checks=1500, timeout=1200)],
@@ -86,9 +86,9 @@ CHECKS["C11"] = dict(
     rule=("rapid draws one codec case: data block / index block / footer / meta / whole table (table.Build decoded the way "
           "recovery, compaction and lookups read it: footer -> index -> whole data region and block by block) / wal "
           "(1..5 entries per Write, Close+Open in between, then Read) / alias. Entries: keys and values as pattern x "
-          "length with length classes {0,1,2,3,7,16,100,255,256,257,1000,4096,65535}, shared prefixes up to 65500 bytes, "
+          "length with length classes {0,1,2,3,7,16,100,255,256,257,1000,4096,65535,65536,65537,70000}, shared prefixes up to 70000 bytes, multi-byte UTF-8 neighbour suffixes (same lead byte, other continuation byte), "
           "binary and empty strings, nil vs empty values, both tombstone flags, versions over the full int64 range; "
-          "0..400 entries; block sizes 1..4096. Oracles: decode(encode(x)) == x field by field; alias: the bytes an "
+          "0..400 entries; block sizes 1..4096 and 1 MiB. Oracles: decode(encode(x)) == x field by field; alias: the bytes an "
           "encoder returned are snapshotted, further encoders/decoders run in the SAME goroutine, the bytes must be "
           "unchanged. A second leg draws key/value lengths in {65536,65537,70000,131072,200000}. A third leg (race "
           "detector) runs 2..5 goroutines encoding, decoding, building tables and appending to one wal, each verifying "
@@ -100,13 +100,13 @@ CHECKS["C11"] = dict(
     level_text=("Generated-input search with exact round-trip oracles plus a deterministic single-goroutine aliasing "
                 "relation; the concurrent leg relies on the race detector over executed schedules only."),
     level_note="trusted: the blob expansion and cmpEntries (nil value == empty value); decodeTable mirrors levelManager.recover/fetch",
-    quick=[dict(pkg="pure", test="TestC11", shards=14, checks=400, timeout=200),
-           dict(pkg="pure", test="TestC11Size", shards=2, checks=150, timeout=200),
-           dict(pkg="pure", test="TestC11Conc", race=True, shards=6, checks=12, timeout=200, replay_tries=1)],
-    thorough=[dict(pkg="pure", test="TestC11", shards=16, checks=30000, timeout=1500),
+    quick=[dict(pkg="pure", test="TestC11", shards=14, checks=400, timeout=1200),
+           dict(pkg="pure", test="TestC11Size", shards=2, checks=150, timeout=1200),
+           dict(pkg="pure", test="TestC11Conc", race=True, shards=6, checks=12, timeout=1200, replay_tries=1)],
+    thorough=[dict(pkg="pure", test="TestC11", shards=16, checks=30000, timeout=14400),
               dict(kind="fuzz", pkg="pure", fuzz="FuzzC11", test="TestC11", fuzztime=120),
-              dict(pkg="pure", test="TestC11Size", shards=4, checks=3000, timeout=900),
-              dict(pkg="pure", test="TestC11Conc", race=True, shards=16, checks=150, timeout=900)],
+              dict(pkg="pure", test="TestC11Size", shards=4, checks=3000, timeout=1800),
+              dict(pkg="pure", test="TestC11Conc", race=True, shards=16, checks=150, timeout=1800)],
 )
 
 _LV_GEN = ("rapid draws a levelManager case: L0TargetNum 1..3, LevelRatio 1..3, DataBlockByteThreshold in "
@@ -137,10 +137,12 @@ CHECKS["C10"] = dict(
                 "for all queries of each generated layout; the small universe is enumerated exhaustively."),
     level_note="trusted: vlib.Best / vlib.LessV (written independently of types.CompareKeys) and the verif-only accessor, which only delegates to searchLowerBound, flushToL0, recover, fetch",
     death_is_violation=True,
-    quick=[dict(pkg="lvl", test="TestC10", shards=16, checks=30, timeout=300, gomaxprocs=1),
-           dict(pkg="lvl", test="TestC10Exh", shards=16, checks=1, timeout=300, gomaxprocs=1, env={"VERIF_EXH": "all", "VERIF_NSHARDS": 16})],
-    thorough=[dict(pkg="lvl", test="TestC10", shards=16, checks=2500, timeout=2400),
-              dict(pkg="lvl", test="TestC10Exh", shards=16, checks=1, timeout=600, gomaxprocs=1, env={"VERIF_EXH": "all", "VERIF_NSHARDS": 16})],
+    quick=[dict(pkg="lvl", test="TestC10", shards=16, checks=30, timeout=1200, gomaxprocs=1),
+           dict(pkg="lvl", test="TestC10Twin", shards=8, checks=12, timeout=1200, gomaxprocs=4),
+           dict(pkg="lvl", test="TestC10Exh", shards=16, checks=1, timeout=1200, gomaxprocs=1, env={"VERIF_EXH": "all", "VERIF_NSHARDS": 16})],
+    thorough=[dict(pkg="lvl", test="TestC10", shards=16, checks=2500, timeout=14400),
+              dict(pkg="lvl", test="TestC10Twin", shards=8, checks=600, timeout=14400, gomaxprocs=4),
+              dict(pkg="lvl", test="TestC10Exh", shards=16, checks=1, timeout=1800, gomaxprocs=1, env={"VERIF_EXH": "all", "VERIF_NSHARDS": 16})],
 )
 
 CHECKS["C09"] = dict(
@@ -160,8 +162,8 @@ CHECKS["C09"] = dict(
                 "through checkAndCompact (reachable table selections)."),
     level_note="trusted: vlib.Best over the flushed multiset; watermark steering through the stub oracle's readMark (Done + VerifSync)",
     death_is_violation=True,
-    quick=[dict(pkg="lvl", test="TestC09", shards=16, checks=260, timeout=400, gomaxprocs=1)],
-    thorough=[dict(pkg="lvl", test="TestC09", shards=16, checks=4000, timeout=2400)],
+    quick=[dict(pkg="lvl", test="TestC09", shards=16, checks=260, timeout=1200, gomaxprocs=1)],
+    thorough=[dict(pkg="lvl", test="TestC09", shards=16, checks=4000, timeout=14400)],
 )
 
 _E1_GEN = ("rapid draws a whole Program: Config (SkipListMaxLevel {0,1,2,4,9,12}, SkipListP {0..0.9}, MemtableByteThreshold "
@@ -191,11 +193,13 @@ def _e1(prop, title, owns, nontriv, q_checks, t_checks, extra_assume=()):
                      "Close is called with no transaction open; after Close only View/Update are called"] + list(extra_assume),
         level_text=title,
         level_note="trusted: the reference model (model.go), the interpreter's bookkeeping, the gate controller (steers only; verdicts never read hook state)",
-        quick=[dict(pkg="dbsm", test="Test" + prop, shards=16, checks=q_checks, timeout=400)] + (
-            [dict(pkg="conc", test="Test" + prop + "Conc", race=True, shards=8, checks=8, timeout=400, gomaxprocs=4)] if prop in ("C05", "C06", "C07") else []),
-        thorough=[dict(pkg="dbsm", test="Test" + prop, shards=16, checks=t_checks, timeout=3000),
-                  dict(pkg="dbsm", test="Test" + prop, shards=16, checks=max(20, t_checks // 5), timeout=3000, env={"VERIF_FREE": "1"}, replay_tries=30)] + (
-            [dict(pkg="conc", test="Test" + prop + "Conc", race=True, shards=16, checks=250, timeout=3000, gomaxprocs=4)] if prop in ("C05", "C06", "C07") else []),
+        quick=[dict(pkg="dbsm", test="Test" + prop, shards=16, checks=q_checks, timeout=1200)] + (
+            [dict(pkg="conc", test="Test" + prop + "Conc", race=True, shards=8, checks=8, timeout=1200, gomaxprocs=4)] if prop in ("C05", "C06", "C07") else []) + (
+            [dict(pkg="conc", test="Test" + prop + "Stress", shards=6, checks=2, timeout=1200, gomaxprocs=8, parallel=6)] if prop in ("C05", "C06") else []),
+        thorough=[dict(pkg="dbsm", test="Test" + prop, shards=16, checks=t_checks, timeout=14400),
+                  dict(pkg="dbsm", test="Test" + prop, shards=16, checks=max(20, t_checks // 5), timeout=14400, env={"VERIF_FREE": "1"}, replay_tries=30)] + (
+            [dict(pkg="conc", test="Test" + prop + "Conc", race=True, shards=16, checks=250, timeout=14400, gomaxprocs=4)] if prop in ("C05", "C06", "C07") else []) + (
+            [dict(pkg="conc", test="Test" + prop + "Stress", shards=4, checks=60, timeout=14400, gomaxprocs=8, parallel=4)] if prop in ("C05", "C06") else []),
     )
 
 CHECKS["C01"] = _e1("C01", "Generated-history search against an exact model: every read in a fresh transaction must return the latest committed write, at whatever gate the flusher stands.",
@@ -239,8 +243,8 @@ def _e2(prop, text, judged, nontriv, q, th):
                      "crash points are exhaustive per executed run; the interleaving of foreground and flusher operations varies from run to run"],
         level_text=text,
         level_note="trusted: the os overlay (11 wrapped entry points, each asserted to patch exactly once), the ack log written with raw write(2), crashlib's allowed-value oracle",
-        quick=[dict(pkg="crash", test="Test" + prop, shards=16, checks=q, timeout=900, vworker=True, shrinktime="5s")],
-        thorough=[dict(pkg="crash", test="Test" + prop, shards=16, checks=th, timeout=6000, vworker=True, shrinktime="5s")],
+        quick=[dict(pkg="crash", test="Test" + prop, shards=16, checks=q, timeout=1800, vworker=True, shrinktime="5s")],
+        thorough=[dict(pkg="crash", test="Test" + prop, shards=16, checks=th, timeout=14400, vworker=True, shrinktime="5s")],
     )
 
 CHECKS["C03"] = _e2("C03", "Systematic crash injection: all crash points of every generated run, crash sequences (crash again at every operation of a recovery), real SIGKILL cross-checks.",
@@ -275,8 +279,10 @@ CHECKS["C12"] = dict(
                  "each transaction is used by one goroutine"],
     level_text="Monitors (race detector, panic, watchdog) plus history oracles over sampled real schedules; the schedule is not owned here.",
     level_note="trusted: Go race detector, porcupine, the history recording in conc_test.go",
-    quick=[dict(pkg="conc", test="TestC12Conc", race=True, shards=8, checks=10, timeout=600, gomaxprocs=4, parallel=8)],
-    thorough=[dict(pkg="conc", test="TestC12Conc", race=True, shards=16, checks=400, timeout=3000, gomaxprocs=4)],
+    quick=[dict(pkg="conc", test="TestC12Conc", race=True, shards=8, checks=10, timeout=1800, gomaxprocs=4, parallel=8),
+           dict(pkg="conc", test="TestC12Stress", shards=6, checks=2, timeout=1200, gomaxprocs=8, parallel=6)],
+    thorough=[dict(pkg="conc", test="TestC12Conc", race=True, shards=16, checks=400, timeout=14400, gomaxprocs=4),
+              dict(pkg="conc", test="TestC12Stress", shards=4, checks=60, timeout=14400, gomaxprocs=8, parallel=4)],
 )
 
 CHECKS["C15"] = dict(
@@ -300,10 +306,10 @@ CHECKS["C15"] = dict(
     assumptions=["Close is called once, with no transaction open and no call in flight"],
     level_text="Deterministically constructed blocking situations (owned flusher) plus sampled free schedules; liveness is decided by a no-runnable-goroutine criterion, not by time.",
     level_note="trusted: the goroutine-dump parser (deadlocked()), the verifhook gate (steers only)",
-    quick=[dict(pkg="conc", test="TestC15", shards=12, checks=110, timeout=600, gomaxprocs=4),
-           dict(pkg="conc", test="TestC15Conc", shards=8, checks=40, timeout=600, gomaxprocs=4)],
-    thorough=[dict(pkg="conc", test="TestC15", shards=16, checks=1500, timeout=3000, gomaxprocs=4),
-              dict(pkg="conc", test="TestC15Conc", shards=16, checks=400, timeout=3000, gomaxprocs=4)],
+    quick=[dict(pkg="conc", test="TestC15", shards=12, checks=110, timeout=1800, gomaxprocs=4),
+           dict(pkg="conc", test="TestC15Conc", shards=8, checks=40, timeout=1800, gomaxprocs=4)],
+    thorough=[dict(pkg="conc", test="TestC15", shards=16, checks=1500, timeout=14400, gomaxprocs=4),
+              dict(pkg="conc", test="TestC15Conc", shards=16, checks=400, timeout=14400, gomaxprocs=4)],
 )
 
 ENGINES = [
